@@ -474,15 +474,20 @@ def run(tier, seed):
         fakes.install_clock()
         c2, t2, _ = fakes.ready_client()
         iface = interface.DBusInterface('org.ex.PS', interface.Signal('Sig', decl), noRegister=True)
-        ro = objects.RemoteDBusObject(c2.objHandler, 'org.ex.Srv', '/p', [iface])
-        hits = []
-        d = ro.notifyOnSignal('Sig', lambda *a: hits.append(a))
+        # the object has a second interface with a signal of the same name (another signature), subscribed to first
+        iface2 = interface.DBusInterface('org.ex.PS2', interface.Signal('Sig', 'u'), noRegister=True)
+        ro = objects.RemoteDBusObject(c2.objHandler, 'org.ex.Srv', '/p', [iface2, iface])
+        hits, others = [], []
+        ro.notifyOnSignal('Sig', lambda *a: others.append(a), interface='org.ex.PS2')
+        calls = fakes.parse_all(t2.take())
+        c2.dataReceived(message.MethodReturnMessage(calls[0].serial, destination=':1.7').rawMessage)
+        d = ro.notifyOnSignal('Sig', lambda *a: hits.append(a), interface='org.ex.PS')
         calls = fakes.parse_all(t2.take())
         c2.dataReceived(message.MethodReturnMessage(calls[0].serial, destination=':1.7').rawMessage)
         body = {'s': ['v'], 'i': [5], '': None, 'ss': ['a', 'b']}[actual]
         sgn = message.SignalMessage('/p', 'Sig', 'org.ex.PS', signature=actual or None, body=body)
         c2.dataReceived(sgn.rawMessage)
-        args_ok = all(list(h) == (body or []) for h in hits)
+        args_ok = all(list(h) == (body or []) for h in hits) and not others
         ptr.append([({'n': 'Init'}, {'mode': 'gen', 'rule': (tuple(decl), tuple(actual)),
                                      'matched': frozenset({1} if len(hits) == 1 and args_ok else ({} if not hits else {2})),
                                      'rules': (), 'nextId': 0, 'invoked': frozenset(), 'text': frozenset()})])
